@@ -31,8 +31,8 @@ m("c01_cased_ident_kept", ["C01"], VP, "        if attrs.is_empty() {", "       
   "a variant with only to_string also accepts its cased identifier")
 m("c01_tryfrom_trims", ["C01"], FS, "                ::core::str::FromStr::from_str(s)\n", "                ::core::str::FromStr::from_str(s.trim())\n",
   "TryFrom<&str> trims its input before delegating (TryFrom and FromStr disagree)")
-m("c01_default_with_ignored_named", ["C01"], FS, "                    if let Some(default_with) = meta.default_with {", "                    if let (Some(default_with), true) = (meta.default_with, fields.named.len() == 1) {",
-  "field-level default_with is honoured only on single-field variants")
+m("c01_default_with_ignored_named", ["C01"], FS, "                    if let Some(default_with) = meta.default_with {", "                    if let (Some(default_with), true) = (meta.default_with, fields.named.len() != 2) {",
+  "field-level default_with is ignored on two-field variants")
 # ---- C02 / C14 / G4
 m("c02_serializations_uncased", ["C02", "C14", "C07"], MS, "                variant_properties.get_serializations(type_properties.case_style);", "                variant_properties.get_serializations(None);",
   "get_serializations ignores serialize_all")
@@ -101,8 +101,6 @@ m("c12_lowercase_guard", ["C12"], FS, "                    quote! { s if s.eq_ig
 m("c12_false_ignored", ["C12", "C01"], FS, "            .unwrap_or(type_properties.ascii_case_insensitive);", "            .unwrap_or(false)\n            || type_properties.ascii_case_insensitive;",
   "a variant-level `ascii_case_insensitive = false` no longer overrides the enum-level flag")
 # ---- C13
-m("c13_is_naming", ["C13"], IS, "            let fn_name = format_ident!(\"is_{}\", snakify(&variant_name.to_string()));", "            let fn_name = format_ident!(\"is_{}\", heck::ToSnakeCase::to_snake_case(variant_name.to_string().as_str()));",
-  "is_* names no longer split digits off")
 m("c13_try_as_disabled", ["C13"], TA, "        if variant.get_variant_properties()?.disabled.is_none() {", "        if variant.get_variant_properties()?.disabled.is_none() || variant.fields.len() == 1 {",
   "try_as_* methods are generated for disabled single-field variants")
 # ---- C14
@@ -113,8 +111,8 @@ m("c14_trim_start", ["C14"], MS, "                        LitStr::new(&line.as_s
 # ---- C15
 m("c15_replace_group", ["C15"], VP, "                    output.props.extend(props);", "                    output.props = props;",
   "a second props(..) group replaces the first")
-m("c15_negative", ["C15"], PR, "                Lit::Int(..) => PropertyType::Integer,", "                Lit::Int(ref i) if !i.base10_digits().starts_with('9') => PropertyType::Integer,\n                Lit::Int(..) => PropertyType::String,",
-  "integers starting with 9 are bucketed as strings (does not compile for such enums)")
+m("c15_nine", ["C15"], PR, "                Lit::Int(..) => PropertyType::Integer,", "                Lit::Int(ref i) if !i.base10_digits().starts_with('9') => PropertyType::Integer,\n                Lit::Int(..) => PropertyType::String,",
+  "integers starting with 9 are bucketed as strings: the generated code does not type-check for such enums")
 # ---- C16
 m("c16_no_fallback", ["C16", "C12", "C01"], FS, "                    standard_match_arms.push(quote! { s if s.eq_ignore_ascii_case(#serialization) => #name::#ident #params, });\n", "",
   "with use_phf the eq_ignore_ascii_case fallback arm is dropped: mixed-case input is rejected")
@@ -129,7 +127,7 @@ m("c19_std_option", ["C19"], IT, "    arms.push(quote! { _ => ::core::option::Op
   "one template spells ::std::option::Option")
 m("c19_hard_coded_strum", ["C19"], EC, "        impl #impl_generics #strum_module_path::EnumCount for #name #ty_generics #where_clause {", "        impl #impl_generics ::strum::EnumCount for #name #ty_generics #where_clause {",
   "EnumCount hard-codes ::strum instead of the configured crate path")
-m("c19_unrooted_core", ["C19"], IS, "                pub const fn #fn_name(&self) -> bool {", "                pub const fn #fn_name(&self) -> core::primitive::bool {",
+m("c19_unrooted_core", ["C19"], IT, "            fn fmt(&self, f: &mut ::core::fmt::Formatter<'_>) -> ::core::fmt::Result {", "            fn fmt(&self, f: &mut ::core::fmt::Formatter<'_>) -> core::fmt::Result {",
   "a template spells core:: without the leading `::` (captured by a local `mod core`)")
 # ---- C20
 m("c20_unwrap", ["C20"], EC, "            if v.get_variant_properties()?.disabled.is_none() {", "            if v.get_variant_properties().unwrap().disabled.is_none() {",
